@@ -15,8 +15,8 @@ PID = "C10"
 RULE = (
     "exhaustive: every script of bounded length over {start, stop, multicast/unicast Find, stop_announce, announce} x timing prefixes relative to the next library timer, for two timing configurations; random: cases = timing configuration (initial-delay window from {0,0.01,0.1,1}, repetitions 0..4, base delay from "
     "{0.01,0.05,0.2}, cyclic period from {none,0.5,1,2}, TTL from {1,3,inf}, collection timeout from {0,0.005,0.05}, "
-    "request-response window, drawn uniform fractions), 1..3 instances with different ids and option runs, and a script "
-    "of announcer start / stop (also twice) / announce / stop_announce / connection-lost / FindService datagrams "
+    "request-response window, drawn uniform fractions; given as one Timings object or as separate objects for the protocol and the instances whose role-foreign parameters differ), 1..3 instances with different ids and option runs, with or without declared eventgroups, and a script "
+    "of announcer start / stop (also twice) / announce / stop_announce / move (withdrawn and announced again as a new object with other endpoints) / connection-lost / FindService datagrams "
     "(unicast and multicast), every step placed by delay or relative to a pending library timer (-4RES, -RES/4, +RES/4, "
     "+4RES, halfway) - in particular a multicast Find shortly before a stop; plus deterministic probes (stop twice, "
     "connection_lost after stop, SimpleService.start_announce/stop_announce against a real announcer). non-trivial = a "
@@ -37,7 +37,14 @@ OPTS = [
     ([dict(k="ip", type=0x06, addr="2001:db8::1", proto=6, port=30502)], [dict(k="cfg", items=[["a", "b"]])]),
     ([], []),
 ]
+# the endpoints an instance moves to when it is withdrawn and announced again as a new object ("move")
+OPTS_ALT = [
+    ([dict(k="ip", type=0x04, addr="10.0.0.1", proto=17, port=30601)], [dict(k="lb", prio=1, weight=2)]),
+    ([dict(k="ip", type=0x06, addr="2001:db8::1", proto=17, port=30502)], []),
+    ([dict(k="ip", type=0x04, addr="10.0.0.1", proto=6, port=30503)], []),
+]
 INST = [(0x4000, 0x0101, 1, 0x10007), (0x4000, 0x0102, 1, 0), (0x5000, 0x0101, 3, 0x99999)]
+EGS = [frozenset({1, 2}), frozenset({7}), frozenset()]
 
 
 @st.composite
@@ -59,8 +66,10 @@ when_st = st.one_of(
 
 @st.composite
 def _step(draw):
-    op = draw(st.sampled_from(["start", "stop", "stop", "find", "find", "find", "announce", "unannounce", "lost", "wait"]))
+    op = draw(st.sampled_from(["start", "stop", "stop", "find", "find", "find", "announce", "unannounce", "lost", "wait"] * 2 + ["move"]))
     s = {"op": op, "when": draw(when_st)}
+    if op == "move":
+        s["i"] = draw(st.integers(0, 2))
     if op == "find":
         s.update(mc=draw(st.booleans()), i=draw(st.integers(0, 2)), wild=draw(st.booleans()), src=draw(st.integers(0, 1)))
     elif op in ("announce", "unannounce"):
@@ -72,7 +81,7 @@ def _step(draw):
 def _case(draw):
     steps = [{"op": "start", "when": ["d", 0.01]}] + draw(st.lists(_step(), min_size=1, max_size=10))
     return {"kind": "script", "tm": draw(_timing()), "n": draw(st.integers(1, 3)), "fr": draw(st.lists(st.sampled_from([0.0, 0.25, 0.5, 1.0]), min_size=1, max_size=4)),
-            "steps": steps}
+            "steps": steps, "eg": draw(st.booleans()), "decoy": draw(st.booleans())}
 
 
 def strategy(tier):
@@ -188,7 +197,17 @@ def run_case(case):
         tm = timings(INITIAL_DELAY_MIN=t["imin"], INITIAL_DELAY_MAX=t["imax"], REPETITIONS_MAX=t["reps"], REPETITIONS_BASE_DELAY=t["base"],
                      CYCLIC_OFFER_DELAY=t["cyc"], ANNOUNCE_TTL=t["ttl"], SEND_COLLECTION_TIMEOUT=t["coll"],
                      REQUEST_RESPONSE_DELAY_MIN=t["rmin"], REQUEST_RESPONSE_DELAY_MAX=t["rmax"])
-        prot = make_sd(sim, tm)
+        tm_prot = tm_inst = tm
+        if case.get("decoy"):
+            # the protocol object and the instances get Timings objects of their own: each carries the case's values for the
+            # parameters its role reads and unrelated ones for the parameters that belong to the other role
+            tm_prot = timings(INITIAL_DELAY_MIN=0.013, INITIAL_DELAY_MAX=0.017, REPETITIONS_MAX=5, REPETITIONS_BASE_DELAY=0.011,
+                              CYCLIC_OFFER_DELAY=0.37, ANNOUNCE_TTL=7, SEND_COLLECTION_TIMEOUT=t["coll"],
+                              REQUEST_RESPONSE_DELAY_MIN=t["rmin"], REQUEST_RESPONSE_DELAY_MAX=t["rmax"])
+            tm_inst = timings(INITIAL_DELAY_MIN=t["imin"], INITIAL_DELAY_MAX=t["imax"], REPETITIONS_MAX=t["reps"], REPETITIONS_BASE_DELAY=t["base"],
+                              CYCLIC_OFFER_DELAY=t["cyc"], ANNOUNCE_TTL=t["ttl"], SEND_COLLECTION_TIMEOUT=0.033,
+                              REQUEST_RESPONSE_DELAY_MIN=0.041, REQUEST_RESPONSE_DELAY_MAX=0.043)
+        prot = make_sd(sim, tm_prot)
         ann = prot.announcer
         queued = []
         orig_queue = ann.queue_send
@@ -203,11 +222,18 @@ def run_case(case):
 
         ann.queue_send = rec_queue
         insts = []
-        for i in range(n):
+        opt_hist = {}   # instance -> [(since, (run1, run2))]
+
+        def make_instance(i, alt):
             sid, iid, maj, minor = INST[i]
-            o1, o2 = OPTS[i]
-            svc = cfg.Service(sid, iid, maj, minor, options_1=tuple(lib_option(o) for o in o1), options_2=tuple(lib_option(o) for o in o2))
-            insts.append(sd.ServiceInstance(svc, ServerRec(sim, [], f"I{i}"), ann, tm))
+            o1, o2 = (OPTS_ALT if alt else OPTS)[i]
+            opt_hist.setdefault(i, []).append((sim.now, ([desc_semantic(o) for o in o1], [desc_semantic(o) for o in o2])))
+            svc = cfg.Service(sid, iid, maj, minor, options_1=tuple(lib_option(o) for o in o1), options_2=tuple(lib_option(o) for o in o2),
+                              eventgroups=EGS[i] if case.get("eg") else frozenset())
+            return sd.ServiceInstance(svc, ServerRec(sim, [], f"I{i}"), ann, tm_inst)
+
+        for i in range(n):
+            insts.append(make_instance(i, False))
             ann.announce_service(insts[-1])
         announced = [True] * n
         started = [False]
@@ -287,6 +313,20 @@ def run_case(case):
                 announced[i] = False
                 ann_order.remove(i)
                 ann.stop_announce_service(insts[i])
+            elif op == "move":
+                # the instance is withdrawn and a new ServiceInstance object with the same ids but other endpoints is announced
+                i = s.get("i", 0) % n
+                if not announced[i]:
+                    return
+                if running(i):
+                    finish(i)
+                ann_order.remove(i)
+                ann.stop_announce_service(insts[i])
+                insts[i] = make_instance(i, len(opt_hist[i]) % 2 == 1)
+                ann_order.append(i)
+                if started[0]:
+                    begin(i)
+                ann.announce_service(insts[i])
             elif op == "find":
                 i = s.get("i", 0) % n
                 sid, iid, maj, minor = INST[i]
@@ -340,8 +380,12 @@ def run_case(case):
                 require(e["major"] == maj and e["minor"] == minor, "C10.offer-content", lambda: f"offer entry {e} of instance {INST[i]}")
                 if e["ttl"] != 0:
                     require(e["ttl"] == t["ttl"], "C10.offer-content", lambda: f"offer of {INST[i]} carries TTL {e['ttl']}, configured {t['ttl']}")
-                    require(e["run1"] == [desc_semantic(o) for o in o1] and e["run2"] == [desc_semantic(o) for o in o2], "C10.offer-options",
-                            lambda: f"offer of {INST[i]} carries {e['run1']} / {e['run2']}")
+                    # the options of the instance object announced when the entry was queued (at most the collection timeout before it left)
+                    hist_i = opt_hist[i]
+                    allowed = [o for k_, (since, o) in enumerate(hist_i)
+                               if since <= e["t"] + RES and (k_ + 1 == len(hist_i) or hist_i[k_ + 1][0] >= e["t"] - t["coll"] - RES)]
+                    require([e["run1"], e["run2"]] in [list(o) for o in allowed], "C10.offer-options",
+                            lambda: f"offer of {INST[i]} sent at t={e['t']:.6f} carries {e['run1']} / {e['run2']}, the instance announced then has {allowed}")
             q_i = [q for q in queued if q[3] == i and q[1].sd_type == OFFER]
             # nothing with a non-zero TTL while stopped - to anyone
             for tq, e, rem, _, ri, stopped in q_i:
